@@ -717,8 +717,13 @@ func (p *pp) printArg(arg interface{}, verb rune) {
 
 	// CUSTOM: %w with an operand that is not an error is invalid,
 	// whatever the operand's type.
-	if _, ok := arg.(error); !ok {
+	if err, ok := arg.(error); !ok {
 		p.invalidWrap(verb)
+	} else if verb == 'w' && p.wrapErrs && p.wrappedErr == nil {
+		// A correctly used %w: this is the error to wrap, and it is
+		// printed like %v from here on, also where no method applies.
+		p.wrappedErr = err
+		verb = 'v'
 	}
 
 	p.arg = arg
@@ -1151,7 +1156,8 @@ formatLoop:
 				// Fast path for common case of ascii lower case simple verbs
 				// without precision or width or argument indices.
 				if 'a' <= c && c <= 'z' && argNum < len(a) {
-					if c == 'v' {
+					if c == 'v' || c == 'w' {
+						// CUSTOM: a correctly used %w prints like %v, flags included.
 						// Go syntax
 						p.fmt.sharpV = p.fmt.sharp
 						p.fmt.sharp = false
@@ -1246,7 +1252,8 @@ formatLoop:
 			p.badArgNum(verb)
 		case argNum >= len(a): // No argument left over to print for the current verb.
 			p.missingArg(verb)
-		case verb == 'v':
+		case verb == 'v' || verb == 'w':
+			// CUSTOM: a correctly used %w prints like %v, flags included.
 			// Go syntax
 			p.fmt.sharpV = p.fmt.sharp
 			p.fmt.sharp = false
